@@ -387,7 +387,7 @@ class Sim:
             # closed between readiness and callback: a closed transport reads nothing
             self.stats["dgram_to_dead_socket"] += 1
             return
-        self.rec("rx", sock.actor, (sock.chan, src, payload))
+        self.rec("rx", sock.actor, (sock.chan, src, payload, sock.addr))
         self.stats["delivered"] += 1
         sock.deliver(payload, src)
 
